@@ -257,6 +257,8 @@ fn decode_family(rep: &mut Report, prop: &str, input: &[u8]) {
         let m = METHODS[ci % 4];
         let m2 = METHODS[(ci / 4 + 1) % 4];
         run(&[Piece { lo: 0, hi: *c, m, d: DRAINS[ci % 6] }, Piece { lo: *c, hi: n, m: m2, d: D::None }]);
+        // a zero-length call at the cut
+        run(&[Piece { lo: 0, hi: *c, m, d: D::None }, Piece { lo: *c, hi: *c, m: METHODS[ci % 2], d: D::None }, Piece { lo: *c, hi: n, m: m2, d: D::None }]);
     }
     // every candidate cut at once
     for mask in 0..4 {
